@@ -12,6 +12,7 @@ OBLIGATIONS = [
     "Pkgcore.C43.collapse_nearest_definition",
     "Pkgcore.C43.tree_shaped_collapses",
     "Pkgcore.C43.cycle_or_missing_is_error",
+    "Pkgcore.C43.history_collapse_is_current",   # the rendered-section cache is never stale across add_config_source / reload
     "Pkgcore.C43.expand_measure",       # the decrease that makes `loop` (well-founded recursion) terminate on any graph
 ]
 TRUSTED = [
@@ -26,7 +27,9 @@ ASSUMPTIONS = ["section names are unique within one config source (sources are m
 RULE = ("1-4 config sources over section names A-F (+ one undefined name), built as random trees with sections spread over sources and "
         "self-inherits to the earlier source, then optionally perturbed (extra edge = cycle or diamond, deleted target, duplicate name in an "
         "inherit list); every defined name collapsed; non-trivial = the breadth-first order has >= 3 nodes, or the error is an "
-        "inheritance error (missing target / self-inherit without earlier source / cycle)")
+        "inheritance error (missing target / self-inherit without earlier source / cycle); plus histories on one manager: collapse some "
+        "names, add_config_source (a further source of the same generated configuration) or reload, collapse again ... each answer compared "
+        "with a manager created afresh over the current sources (non-trivial = a source was added after a collapse)")
 LEVEL_TEXT = ("Kernel-checked Lean 4 theorems about a model of ConfigManager section lookup, _get_inherited_sections and collapse_section: "
               "the lookup stacks are the sections of all sources latest-first; whenever collapsing succeeds the relevant sections are exactly "
               "the generations of the inheritance graph in breadth-first order and every key has the value of the first section in that "
@@ -130,39 +133,41 @@ def to_model(sources):
 
 # ------------------------------------------------------------------ implementation side
 
-def build_manager(sources, forms):
-    from pkgcore.config import basics, central, cparser
+def build_source(src, form):
+    """one config source in the requested concrete form"""
+    from pkgcore.config import basics, cparser
     thing = _install_class()
-    cfgs = []
-    for src, form in zip(sources, forms):
-        if form == "ini":
-            txt = []
-            for n, sec in src.items():
-                txt.append("[%s]" % n)
-                if sec["inherit"] is not None:
-                    txt.append("inherit = %s" % " ".join(sec["inherit"]))
-                if sec["inherit_only"]:
-                    txt.append("inherit-only = true")
-                for k, v in sec["items"].items():
-                    txt.append("%s = %s" % (k, v))
-            cfgs.append(cparser.config_from_file(io.StringIO("\n".join(txt) + "\n")))
-            continue
-        d = {}
+    if form == "ini":
+        txt = []
         for n, sec in src.items():
-            raw = {}
+            txt.append("[%s]" % n)
             if sec["inherit"] is not None:
-                raw["inherit"] = list(sec["inherit"]) if form == "hard" else " ".join(sec["inherit"])
+                txt.append("inherit = %s" % " ".join(sec["inherit"]))
             if sec["inherit_only"]:
-                raw["inherit-only"] = True if form == "hard" else "true"
+                txt.append("inherit-only = true")
             for k, v in sec["items"].items():
-                if form == "hard" and k == "class":
-                    v = thing
-                elif form == "hard" and k == "default":
-                    v = (v == "true")
-                raw[k] = v
-            d[n] = basics.HardCodedConfigSection(raw) if form == "hard" else basics.ConfigSectionFromStringDict(raw)
-        cfgs.append(d)
-    return central.ConfigManager(cfgs)
+                txt.append("%s = %s" % (k, v))
+        return cparser.config_from_file(io.StringIO("\n".join(txt) + "\n"))
+    d = {}
+    for n, sec in src.items():
+        raw = {}
+        if sec["inherit"] is not None:
+            raw["inherit"] = list(sec["inherit"]) if form == "hard" else " ".join(sec["inherit"])
+        if sec["inherit_only"]:
+            raw["inherit-only"] = True if form == "hard" else "true"
+        for k, v in sec["items"].items():
+            if form == "hard" and k == "class":
+                v = thing
+            elif form == "hard" and k == "default":
+                v = (v == "true")
+            raw[k] = v
+        d[n] = basics.HardCodedConfigSection(raw) if form == "hard" else basics.ConfigSectionFromStringDict(raw)
+    return d
+
+
+def build_manager(sources, forms):
+    from pkgcore.config import central
+    return central.ConfigManager([build_source(src, form) for src, form in zip(sources, forms)])
 
 
 ERR_PATTERNS = [
@@ -239,7 +244,7 @@ def run(ctx):
     for sources, name in CORPUS:
         for form in ("hard", "strdict", "ini"):
             cases.append((sources, [form] * len(sources), name))
-    for _ in range(ctx.n(5000, 60000)):
+    for _ in range(ctx.n(3000, 60000)):
         sources, forms = gen_case(rng)
         defined = sorted({n for s in sources for n in s})
         for name in defined + ([GHOST] if rng.random() < 0.05 else []):
@@ -333,3 +338,122 @@ def run(ctx):
                     ctx.mismatch(case, f"objects.c43thing[{name!r}] = {inst} differs from collapsed config {impl['ok']}")
             except Exception as e:
                 ctx.mismatch(case, f"instantiating through manager.objects raised {type(e).__name__}: {e}")
+    run_histories(ctx)
+
+
+# ------------------------------------------------------------------ histories: collapse / add_config_source / reload / collapse again
+
+def gen_history(rng):
+    """(initial sources, forms, ops): sources are cut off a generated configuration and added later, with collapses in between"""
+    sources, forms = gen_case(rng)
+    while len(sources) < 2 and rng.random() < 0.8:
+        more, mf = gen_case(rng)
+        sources, forms = sources + more[:2], forms + mf[:2]
+    k = rng.randint(1, max(1, len(sources) - 1)) if len(sources) > 1 else 1
+    init, later = sources[:k], sources[k:]
+    names = sorted({n for s in sources for n in s})
+    ops = []
+    for src, form in [(None, None)] + list(zip(later, forms[k:])):
+        if src is not None:
+            ops.append({"op": "add", "source": src, "form": form})
+        elif rng.random() < 0.2:
+            ops.append({"op": "reload"})
+        picks = [n for n in names if rng.random() < 0.7] or names[:1]
+        rng.shuffle(picks)
+        for n in picks:
+            ops.append({"op": "collapse", "name": n})
+        if rng.random() < 0.15:
+            ops.append({"op": "reload"})
+            ops.append({"op": "collapse", "name": rng.choice(names)})
+    return init, forms[:k], ops
+
+
+HISTORY_CORPUS = [
+    # a section collapsed before a later source redefines its base / its base's base / the section itself / adds a self-inherit layer
+    ([{"A": S(["B"], k1="a", **{"class": CLS}), "B": S(k1="b-old", k2="b-old")}], [{"B": S(k2="b-new", k3="b-new")}], ["A", "B"]),
+    ([{"A": S(["B"], **{"class": CLS}), "B": S(["C"], k1="b"), "C": S(k2="c-old")}], [{"C": S(k2="c-new")}], ["A"]),
+    ([{"A": S(k1="old", k2="old", **{"class": CLS})}], [{"A": S(["A"], k1="new")}], ["A"]),
+    ([{"A": S(["B"], **{"class": CLS}), "B": S(k1="b")}], [{"B": S(["B", "Z"], k2="b2")}], ["A"]),          # the new layer breaks it
+    ([{"A": S(["B"], **{"class": CLS})}], [{"B": S(k1="now-there")}], ["A"]),                                  # a missing base appears
+    ([{"A": S(["B"], **{"class": CLS}), "B": S(k1="b")}], [{"B": S(["A"])}], ["A", "B"]),                       # a cycle appears
+]
+
+
+def run_histories(ctx):
+    from pkgcore.config import central
+    rng = ctx.rng
+    hist = []
+    for init, add, names in HISTORY_CORPUS:
+        for form in ("hard", "strdict", "ini"):
+            ops = [{"op": "collapse", "name": n} for n in names]
+            for a in add:
+                ops.append({"op": "add", "source": a, "form": form})
+                ops += [{"op": "collapse", "name": n} for n in names]
+            hist.append((init, [form] * len(init), ops))
+    for _ in range(ctx.n(400, 15000)):
+        hist.append(gen_history(rng))
+    reqs = [{"cmd": "c43.history", "sources": to_model(init),
+             "ops": [({"op": "add", "source": to_model([o["source"]])[0]} if o["op"] == "add" else o) for o in ops]}
+            for init, _, ops in hist]
+    replies = []
+    for i in range(0, len(reqs), 5000):
+        replies += ctx.model(reqs[i:i + 5000])
+    for (init, forms, ops), rep in zip(hist, replies):
+        case = {"history": {"initial": init, "forms": forms, "ops": ops}}
+        if rep == "bad-op" or len(rep) != len(ops):
+            ctx.mismatch(case, "driver rejected the history")
+            continue
+        try:
+            mgr = build_manager(init, forms)
+        except Exception as e:
+            ctx.violation(case, f"building the manager raised {type(e).__name__}: {e}")
+            continue
+        current, cur_forms = list(init), list(forms)
+        added = collapsed_before = False
+        ok = True
+        for i, (op, m) in enumerate(zip(ops, rep)):
+            step = dict(case, failing_step=i)
+            try:
+                if op["op"] == "add":
+                    mgr.add_config_source(build_source(op["source"], op["form"]))
+                    current.append(op["source"])
+                    cur_forms.append(op["form"])
+                    added = True
+                    continue
+                if op["op"] == "reload":
+                    mgr.reload()
+                    continue
+                impl = impl_collapse(mgr, op["name"])
+            except Exception as e:
+                ctx.violation(step, f"{op['op']} raised {type(e).__name__}: {e}")
+                ok = False
+                break
+            collapsed_before = True
+            ctx.evaluations += 1
+            # ---- the property on the real code: same answer as a manager created now over the current sources
+            fresh = impl_collapse(build_manager(current, cur_forms), op["name"])
+            if {k: v for k, v in impl.items() if k != "default"} != {k: v for k, v in fresh.items() if k != "default"}:
+                ctx.violation(step, f"collapsing {op['name']!r} after this history gives {impl}; a manager created over the current "
+                                    f"sources gives {fresh}")
+                ok = False
+                break
+            spec = m["spec"]
+            if "ok" in spec and ("ok" not in impl or [tuple(x) for x in impl["ok"]] != sorted(map(tuple, spec["ok"]))):
+                ctx.violation(step, f"nearest definitions over the current sources are {spec['ok']}; the manager answers {impl}")
+                ok = False
+                break
+            if spec.get("err") in ("missing", "cyclic") and "ok" in impl:
+                ctx.violation(step, f"the current sources have a {spec['err']} problem but the manager answers {impl}")
+                ok = False
+                break
+            # ---- model vs implementation
+            model = m["model"]
+            mm = {"ok": sorted(map(tuple, model["ok"]))} if "ok" in model else model
+            ii = {"ok": [tuple(x) for x in impl["ok"]]} if "ok" in impl else dict(impl)
+            if mm != ii:
+                ctx.mismatch(step, f"implementation {impl}, model {model}")
+                ok = False
+                break
+        ctx.count("history_ops_%d" % min(40, len(ops) // 10 * 10))
+        if ok:
+            ctx.case(case, added and collapsed_before, key=None)
